@@ -143,7 +143,13 @@ def pipeline(tier, seed):
         env = dict(verif.GOENV, VERIF_SEED=str(seed), VERIF_TIER=tier)
         rc, out = verif.sh([verif.harness_bin("chain"), os.path.join(cdir, "chains")], env=env, timeout=3000)
         tgen = time.time() - t0
-        if rc != 0:
+        gen_problem = None
+        if rc == 5 and glob.glob(os.path.join(cdir, "chains", "*", "steps.txt")):
+            # the generator's own guard: a history it is required to produce is missing from this run (on a changed tree the
+            # honest producer may simply behave differently).  The chains it did write are still judged, so that a real
+            # disagreement is reported with its input; the missing history is reported as a broken correspondence on top.
+            gen_problem = "chain generator guard (rc=5): " + out[-1500:]
+        elif rc != 0:
             return dict(ok=False, problems=[dict(kind="correspondence", detail="chain generator failed (rc=%d):\n%s" % (rc, out[-3000:]))],
                         records=[], gen_summary={}, dirs=[])
         dirs = sorted(d for d in glob.glob(os.path.join(cdir, "chains", "*")) if os.path.exists(os.path.join(d, "steps.txt")))
@@ -153,8 +159,10 @@ def pipeline(tier, seed):
         tmodel = time.time() - t1
         bad = [(d, rc) for d, rc, _ in res if rc != 0]
         with open(done, "w") as f:
-            json.dump(dict(gen_s=tgen, model_s=tmodel, model_failures=bad), f)
+            json.dump(dict(gen_s=tgen, model_s=tmodel, model_failures=bad, gen_problem=gen_problem), f)
     meta = json.load(open(done))
+    if meta.get("gen_problem"):
+        problems.append(dict(kind="correspondence", detail=meta["gen_problem"]))
     dirs = sorted(d for d in glob.glob(os.path.join(cdir, "chains", "*")) if os.path.exists(os.path.join(d, "steps.txt")))
     for d, rc in meta.get("model_failures", []):
         problems.append(dict(kind="correspondence", detail="modelrun failed on %s (rc=%s): %s" % (d, rc, open(os.path.join(d, "model.out")).read()[-1500:])))
